@@ -520,6 +520,10 @@ func GenerateImpl(seed uint64, root string) *Module {
 	m.Files[root+"/sibling/s.go"] = "package sibling\n\nimport (\n\t\"" + g.base + "/v2/ifc\"\n\t_ \"" + upath + "\"\n)\n\nvar _ ifc.Data\n\n" +
 		"// @implements ifc.Legacy\ntype Old struct{}\n\nfunc (Old) Old() {}\n\n// @implements ifc.I0\ntype V2Only struct{}\n\nfunc (V2Only) OnlyInV2() {}\n\n" +
 		"// @implements &ifc.I0\ntype Neither struct{}\n\n// @implements ifc.Closer\ntype NoSuch struct{}\n"
+	// the interface package has in-package tests (so a test variant of it exists in the run) and an external test
+	// package with test doubles that claim its interfaces
+	m.Files[root+"/ifc/ifc_internal_test.go"] = "package ifc\n\nvar internalOnly Data\n"
+	m.Files[root+"/ifc/ifc_ext_test.go"] = "package ifc_test\n\nimport \"" + g.base + "/ifc\"\n\nvar _ ifc.Data\n\n// Double is a test double without methods.\n// @implements ifc.I0\ntype Double struct{}\n\n// @implements &ifc.I1\ntype Double1 struct{}\n\n// @implements ifc.Closer\ntype Closing struct{}\n\nfunc (Closing) Close() error { return nil }\n"
 	m.Files[root+"/lonely/a.go"] = "package lonely\n\n// L names a package that only the test file of this package imports.\n// @implements ifc.I0\ntype L struct{}\n\n// @implements &ifc.Closer\ntype L2 struct{}\n"
 	m.Files[root+"/lonely/a_test.go"] = "package lonely\n\nimport \"" + g.base + "/ifc\"\n\nvar _ ifc.Data\n"
 	m.Files[udir+"/z_noimport.go"] = "package " + uname + "\n\n// @implements " + q1 + ".I0\ntype Lonely struct{}\n\n// @implements &" + strings.TrimSuffix(yq, ".") + ".I" + fmt.Sprint(nI-1) + "\ntype Lonely2 struct{}\n\n// @implements LocalI\ntype Lonely3 struct{}\n"
